@@ -38,6 +38,10 @@ type File struct {
 	LinkTarget string
 	Rdev       int32
 	Checksum   [rsyncchecksum.Size]byte
+
+	// TopDir is set for the directories whose contents the sender
+	// transfers (XMIT_TOP_DIR): the directories to delete in.
+	TopDir bool
 }
 
 // FileMode converts from the Linux permission bits to Go’s permission bits.
@@ -112,6 +116,7 @@ func (rt *Transfer) receiveFileEntry(flags uint16, last *File) (*File, error) {
 	// TODO: does rsync’s clean_fname() and sanitize_path() combination do
 	// anything more than Go’s filepath.Clean()?
 	f.Name = filepath.Clean(string(b))
+	f.TopDir = flags&rsync.XMIT_TOP_DIR != 0
 
 	length, err := rt.Conn.ReadInt64()
 	if err != nil {
